@@ -331,7 +331,8 @@ def run_shard(shard, rec):
     Ref = make_ref_class(P)
     register_converters(P)
     r = gen.rng(rec.seed, "c11", shard["servertype"], shard["serializer"])
-    fx = fixture.Fixture(servertype=shard["servertype"], COMMTIMEOUT=0.0)
+    fx = fixture.Fixture(servertype=shard["servertype"], COMMTIMEOUT=0.0, variant=fixture.variant_for(rec.seed, "c11", repr(sorted(shard.items()))))
+    rec.count("fixture_variant:" + fx.variant)
     try:
         n = 0
         for _ in range(shard["n"]):
